@@ -37,6 +37,8 @@ let check_io (t : toks) : string =
   let final = next_bytes t in
   expect t "V";
   if not (next_bool t) && !bad = "" then bad := "ORACLE C14.other_open_file_changed";
+  expect t "KEEP";
+  if not (next_bool t) && !bad = "" then bad := "ORACLE C14.data_returned_by_read_changed_after_later_replies";
   ignore dotu;
   if !bad <> "" then !bad
   else begin
